@@ -79,6 +79,7 @@ func c19Gen(r *sim.Rand, tier string) *sim.Case {
 		// failing system call in the control plane: the same policy is re-applied (a CoA refresh)
 		// at this packet index while the kernel refuses the write to the other direction's map
 		cs.Knobs["refail_at"] = int64(r.Range(1, n/2))
+		cs.Knobs["refail_change"] = int64(r.N(2)) // 1: a half-failed change to a faster policy precedes the re-apply
 	}
 	for i := 0; i < n; i++ {
 		size := int64(1 + r.N(int(maxpkt)))
@@ -220,6 +221,17 @@ func c19Run(c *sim.Ctx) {
 			// the ingress map stops accepting writes (stand-in for ENOMEM / a frozen or closed map);
 			// the egress direction, which is the one measured, must stay under contract
 			ingressM.Close()
+			if cs.Knob("refail_change", 0) == 1 {
+				// a policy change that half fails (this direction written, the other refused) ...
+				fast := &qos.SubscriberQoS{IP: sub, DownloadBPS: rate*16 + 8_000_000, UploadBPS: rate*16 + 8_000_000, BurstBytes: burst, Priority: 3, PolicyName: "p2"}
+				if burst < 1<<30 {
+					fast.BurstBytes = burst * 4
+				}
+				if err := mgr.SetSubscriberQoS(fast); err != nil {
+					c.S.Fault("kmap.update-refused")
+				}
+				// ... after which the control plane puts the subscriber back on its contract
+			}
 			err := mgr.SetSubscriberQoS(&qos.SubscriberQoS{IP: sub, DownloadBPS: rate, UploadBPS: rate, BurstBytes: burst, Priority: 3, PolicyName: "p"})
 			if err != nil {
 				c.S.Fault("kmap.update-refused")
